@@ -139,7 +139,28 @@ Proof.
 Qed.
 Print Assumptions C28_clean_subdir_refuted.
 
+(* an empty directory excluded by .gitignore is removed by Clean{Dir}, kept by git clean -f -d *)
+Theorem C28_clean_ignored_dir_refuted : exists dirs,
+  g_clean_empty_dirs dirs = [] /\ s_clean_empty_dirs dirs = [[98; 117; 105; 108; 100; 47; 101]].
+Proof. exists [([98; 117; 105; 108; 100; 47; 101], true); ([101], false)]. split; reflexivity. Qed.
+Print Assumptions C28_clean_ignored_dir_refuted.
+
 (* --- add *)
+(* a file below a path that is an index entry: go-git keeps the stale entry
+   (directory/file conflict in the index), git drops it *)
+Theorem C28_add_below_tracked_file_refuted : exists s s1 s2,
+  g_add s [97; 47; 98] = ROk s1 /\ s_add s [97; 47; 98] = ROk s2 /\
+  map ie_path (st_index s1) = [pa; [97; 47; 98]] /\ map ie_path (st_index s2) = [[97; 47; 98]].
+Proof.
+  eexists (st0 true [mkT pa MReg (mkHash 0 1)] [mkI pa MReg (mkHash 0 1) 2 5 false] [mkW [97; 47; 98] MReg 2 1 9 false false]), _, _.
+  repeat split; reflexivity.
+Qed.
+Print Assumptions C28_add_below_tracked_file_refuted.
+
+(* (C28_rm_untracked_dir_refuted above differs from git only in the result tag —
+   neither side changes anything — and is not a finding: the property is about
+   index entries and remaining files) *)
+
 (* an ignored untracked file named explicitly is staged; git refuses *)
 Theorem C28_add_ignored_refuted : exists s s', g_add s pa = ROk s' /\ st_index s' <> [] /\ s_add s pa = RErr s.
 Proof.
